@@ -20,9 +20,12 @@ func FuzzC03_RapidTokenizersAndDecoders(f *testing.F) {
 func FuzzC04_Rapid(f *testing.F)               { fuzzRapid(f, TestC04_Rapid, 0) }
 func FuzzC05_RapidSM(f *testing.F)             { fuzzRapid(f, TestC05_RapidSM, 0) }
 func FuzzC06_Rapid(f *testing.F)               { fuzzRapid(f, TestC06_Rapid, 0) }
+func FuzzC06_RapidHistories(f *testing.F)      { fuzzRapid(f, TestC06_RapidHistories, 0) }
 func FuzzC07_Rapid(f *testing.F)               { fuzzRapid(f, TestC07_Rapid, 0) }
+func FuzzC07_RapidHistories(f *testing.F)      { fuzzRapid(f, TestC07_RapidHistories, 0) }
 func FuzzC07_RapidRoundTrips(f *testing.F)     { fuzzRapid(f, TestC07_RapidRoundTrips, 0) }
 func FuzzC08_Rapid(f *testing.F)               { fuzzRapid(f, TestC08_Rapid, 0) }
+func FuzzC08_RapidHistories(f *testing.F)      { fuzzRapid(f, TestC08_RapidHistories, 0) }
 func FuzzC09_Rapid(f *testing.F)               { fuzzRapid(f, TestC09_Rapid, 0) }
 func FuzzC10_Rapid(f *testing.F)               { fuzzRapid(f, TestC10_Rapid, 0) }
 func FuzzC10_RapidMalformed(f *testing.F)      { fuzzRapid(f, TestC10_RapidMalformed, 0) }
